@@ -3350,8 +3350,11 @@ RCP<const Basic> beta(const RCP<const Basic> &x, const RCP<const Basic> &y)
 bool PolyGamma::is_canonical(const RCP<const Basic> &n,
                              const RCP<const Basic> &x)
 {
-    if (is_a_Number(*x) and not(down_cast<const Number &>(*x)).is_positive()) {
+    if (is_a<Integer>(*x) and not(down_cast<const Integer &>(*x)).is_positive()) {
         return false;
+    }
+    if (is_a_Number(*x) and not(down_cast<const Number &>(*x)).is_positive()) {
+        return true;
     }
     if (eq(*n, *zero)) {
         if (eq(*x, *one)) {
@@ -3394,9 +3397,14 @@ RCP<const Basic> polygamma(const RCP<const Basic> &n_,
                            const RCP<const Basic> &x_)
 {
     // Only special values are being evaluated
+    // the poles are the non-positive integers
+    if (is_a<Integer>(*x_)
+        and not(down_cast<const Integer &>(*x_)).is_positive()) {
+        return ComplexInf;
+    }
     if (is_a_Number(*x_)
         and not(down_cast<const Number &>(*x_)).is_positive()) {
-        return ComplexInf;
+        return make_rcp<const PolyGamma>(n_, x_);
     }
     if (is_a<Integer>(*n_) and is_a<Integer>(*x_)) {
         auto n = down_cast<const Integer &>(*n_).as_int();
